@@ -240,16 +240,20 @@ theorem put_step (e : Endian) (size k n b m : Nat) (bb : BitBuf) (hinv : WriteIn
     ∃ bb', bb.put e size (m : Int) b = some bb' ∧ WriteInv e (8 * size) (k + b) (acc e k n m b) bb' := by
   obtain ⟨hrem, hbuf⟩ := hinv
   have hnot : ¬ (b > bb.remaining) := by omega
+  have hrange : ¬ ((m : Int) < 0 ∨ (m : Int) ≥ shl 1 b) := by
+    unfold shl
+    have h1 : ((m : Nat) : Int) < ((2 ^ b : Nat) : Int) := Int.ofNat_lt.mpr hm
+    omega
   cases e with
   | little =>
     simp only at hbuf
-    refine ⟨_, by simp only [BitBuf.put, if_neg hnot]; rfl, by show bb.remaining - b = _; omega, ?_⟩
+    refine ⟨_, by simp only [BitBuf.put, if_neg hnot, if_neg hrange]; rfl, by show bb.remaining - b = _; omega, ?_⟩
     have hs : size * 8 - bb.remaining = k := by omega
     show lor bb.buffer (shl (m : Int) (size * 8 - bb.remaining)) = ((n + m * 2^k : Nat) : Int)
     rw [hs, hbuf, shl_nat, lor_nat, or_little n m k hn]
   | big =>
     simp only at hbuf
-    refine ⟨_, by simp only [BitBuf.put, if_neg hnot]; rfl, by show bb.remaining - b = _; omega, ?_⟩
+    refine ⟨_, by simp only [BitBuf.put, if_neg hnot, if_neg hrange]; rfl, by show bb.remaining - b = _; omega, ?_⟩
     have hs : 8 * size - (k + b) = 8 * size - k - b := by omega
     show lor bb.buffer (shl (m : Int) (bb.remaining - b)) = (((n * 2^b + m) * 2^(8 * size - (k + b)) : Nat) : Int)
     rw [hbuf, hrem, hs, shl_nat, lor_nat, or_big n m (8 * size - k) b (by omega) hm]
